@@ -52,9 +52,19 @@ def run(ctx):
             if R is None:
                 continue
             pd = R.args[0] if R.op == "tuple" else R
+            pd0 = sym([x.name for x in fi.params if x.name != "self"][0])
+            root = pd
+            while root.op == "setitem":
+                root = root.args[0]
+            if mname.startswith("_") and root is not pd0:
+                # the private helper no longer maps a walker-state dictionary to a walker-state dictionary (it returns
+                # the factors themselves): what is stored is decided where its result is consumed -- the public
+                # orthonormalize_walkers above and the free-projection step (C05) are judged with it evaluated in place
+                ctx.rep.note(f"{cq.split('.')[-1]}.{mname}: does not take/return the walker-state dictionary; judged "
+                             f"through its callers")
+                continue
             W = strip_wrappers(getitem(pd, const("walkers")))
             ok, why = False, ""
-            pd0 = sym([x.name for x in fi.params if x.name != "self"][0])
             if W.op == "getitem" and is_const(W.args[1], 0) and W.args[0].op == "call" and \
                     (func_name(W.args[0]) or "").startswith("linalg_utils.qr_vmap"):
                 arg = call_parts(W.args[0])[1][0]
